@@ -336,6 +336,12 @@ def run_check(pid, tier):
 
 def replay_one(pid, path):
     cfg = CHECKS[pid]
+    if cfg["kind"] == "libfuzzer":
+        import kinds
+        bins = build_targets(cfg["fuzzers"])
+        fails, out, _ = kinds.replay_fuzz(bins[kinds.fuzzer_of(path)], path)
+        log(out[-1500:])
+        return 1 if fails else 0
     bins = build_targets([cfg["target"]])
     r = subprocess.run(replay_cmd(cfg, bins[cfg["target"]], pid, path), env=sanitizer_env())
     return 0 if r.returncode == 0 else 1
